@@ -62,6 +62,31 @@ CLAIMED["C03"] = dict(
     technique="deterministic simulation: refinement of recorded packet history against a single-block reference model",
     engine="E-ION", design_ref="6/C03")
 
+CLAIMED["C19"] = dict(
+    level="exploration",
+    text="Generated (start, end, minimum, maximum) settings and histories of requested steps (constant, growing, "
+         "shrinking, CFL-like, exact powers of two and their floating-point neighbours, 30 decades) with "
+         "save/restore faults at seeded positions through the real RestartWriter/RestartReader (including restore "
+         "from a stale dump followed by replay); every advance() is compared with an exact integer reference model "
+         "of the time line (power-of-two step, divides the remainder, never beyond the end, has-next exactly at "
+         "the end, final time equals the end).",
+    note="exactness is evaluated in the integer domain; the physical end time must equal `end` bit for bit when "
+         "start == 0 (the value both drivers pass), for start != 0 a one-ulp difference is counted as a note",
+    technique="deterministic simulation of request histories with save/restore fault injection against an exact reference model",
+    engine="E-TL", design_ref="6/C19")
+CLAIMED["C14"] = dict(
+    level="fault_enumeration",
+    text="Real RestartManager/RestartWriter on the real file system in forked children. A fault-free pass checks "
+         "the rotation after every dump against a vector model; then for every file-system operation (open, "
+         "write, writev, close, rename) of every dump of the history the process is killed before / after / in the "
+         "middle of (torn write) that operation and the surviving directory is inspected: every dump the rotation "
+         "rule keeps must still be on disk complete and checksum-valid. Thorough runs enumerate the complete grid "
+         "backups 0..8 x dumps 0..20 with all crash points; quick runs a subset plus seeded samples.",
+    note="crash model = process death (data handed to the kernel survives, stream buffers are lost); no power-loss "
+         "/ fsync model, matching the property's wording",
+    technique="deterministic simulation with crash-point enumeration over a simulated file layer",
+    engine="E-FS", design_ref="6/C14")
+
 PENDING = {}
 
 
@@ -116,6 +141,10 @@ def main():
         "engines": [
             {"name": "E-CONT", "path": "engines/econt.cpp", "serves_properties": ["C08"],
              "kind_free_text": "client fibers on the real scheduler containers, synthetic workload"},
+            {"name": "E-TL", "path": "engines/etl.cpp", "serves_properties": ["C19"],
+             "kind_free_text": "TimeLine driven by request histories with save/restore faults"},
+            {"name": "E-FS", "path": "engines/efs.cpp", "serves_properties": ["C14"],
+             "kind_free_text": "restart dump rotation in forked children with process death at numbered file-system operations"},
             {"name": "E-ION", "path": "engines/eion.cpp", "serves_properties": ["C01", "C03"],
              "kind_free_text": "whole TaskBasedIonizationSimulation runs from generated parameter files inside the simulator"},
         ],
